@@ -61,6 +61,10 @@ def run_codec_property(v, prop, ops, oracle, rule_extra="", known=None):
     failing, corr_bad, known_hit = [], [], {}
     distinct = set()
     for x in c.cases:
+        if getattr(x, "scaled_of", None) and prop != "C03":
+            continue                     # scaled twins carry only the observations C03 needs
+        if getattr(x, "liar", False) and prop != "C17":
+            continue                     # wrongly declared types: outside every other property
         r = oracle(c, x)
         if (x.cid, "crash") in c.iobs and not r:
             r = "the process aborted while handling bytes produced by serialization: %s" % c.iobs[(x.cid, "crash")]
@@ -674,3 +678,77 @@ def oracle_c04(c, x):
             continue
         return what + " -- required a type-hash or alignment-hash error"
     return known
+
+
+def block_rows(c, x):
+    """(offset, size) of the zero-copy blocks written by the serializer; the items written one by
+    one by an iterator wrapper form one block (they are read back as one slice)"""
+    rows = [(off, size) for (field, off, size, align) in schema_rows(c, x) if field.endswith("zero")]
+    out = set(rows)
+    if contains_siter(x.t):
+        for i in range(len(rows)):
+            off, end = rows[i][0], rows[i][0] + rows[i][1]
+            for j in range(i + 1, len(rows)):
+                if rows[j][0] != end:
+                    break
+                end += rows[j][1]
+                out.add((off, end - off))
+    return out
+
+
+def oracle_c03(c, x):
+    """every borrowed part lies in the buffer, at a block written by the serializer, with the
+    written length, aligned; allocation independent of the borrowed lengths (scaled twins)"""
+    st = ser_status(c, x)
+    if st.get("status") != "OK" or tinfo(c, x).get("exh") == "1":
+        return None
+    e = c.iobs.get((x.cid, "eps:0"), "")
+    if not e.startswith("OK"):
+        return None                      # C02 / C12 decide whether that is legitimate
+    if "OUTSIDE" in e:
+        return "a borrowed part of the eps-copy result points outside the input buffer"
+    if "MISALIGNED" in e:
+        return "a borrowed part of the eps-copy result is misaligned for its element type"
+    n = int(st.get("n", "0"), 16)
+    exp = canon_of(c.U, x.t, x.v)
+    if impl_need(c, x) is not None or getattr(x, "scaled_of", None):
+        if not erase_refs(e).startswith("OK " + exp + " "):
+            return "the borrowed parts of the eps-copy result do not hold the data that was written (lengths or contents differ)"
+        if not erase_refs(e).startswith("OK " + exp + " pos=%s rest=0" % st.get("n")):
+            return "eps-copy deserialization did not end where the serializer ended (%s, %s bytes written)" % (e[e.rfind(" pos="):], st.get("n"))
+    blocks = block_rows(c, x)
+    if (x.cid, "schema") in c.iobs and not getattr(x, "scaled_of", None):
+        for (kind, off, nb, cnt) in refs_of(e):
+            if off + nb > n:
+                return "a borrowed part (offset %d, %d bytes) extends beyond the %d bytes of the stream" % (off, nb, n)
+            if (off, nb) not in blocks:
+                return "a borrowed part (offset %d, %d bytes, %d items) is not one of the zero-copy blocks written by the serializer (%s...)" % (
+                    off, nb, cnt, sorted(blocks)[:6])
+    # borrowed, not copied: a sequence of zero-copy items / a string on the eps path must come back as a reference
+    want = desertype(c.U, sertype(c.U, x.t))
+    if want[0] in ("slice", "str", "ref") and not re.match(r"OK &[STO]", e):
+        return "the eps-copy result of a %s is not a reference into the buffer" % want[0]
+    so = getattr(x, "scaled_of", None)
+    if so:
+        a0, a1 = c.iobs.get((so, "alloc:0")), c.iobs.get((x.cid, "alloc:0"))
+        m0, m1 = c.mobs.get((so, "alloc:%x" % c.bases.get(so, 0))), c.mobs.get((x.cid, "alloc:%x" % c.bases.get(x.cid, 0)))
+        if a0 and a1 and a0.startswith("calls") and a1.startswith("calls"):
+            # the generator's scaling is refereed by the model: same skeleton <=> same request list
+            if m0 and m1 and alloc_parts(m0).get("counts") == alloc_parts(m1).get("counts") and a0 != a1:
+                return "eps-copy deserialization allocates differently when only the borrowed sequences get longer: %s with the original lengths, %s with them scaled" % (a0, a1)
+    return None
+
+
+def oracle_c05(c, x):
+    """derived types: round trips in both modes (C01/C02 oracles) and the eps-copy type"""
+    if "adt" not in constructors(c.U, x.t):
+        return None                      # no derived type involved
+    r = oracle_c01(c, x) or oracle_c02(c, x)
+    if isinstance(r, tuple):
+        return None                      # the known class of C02/C07/C12 (range units) is not about the derive
+    if r:
+        return r
+    d = c.iobs.get((x.cid, "dty"))
+    if d and d != "same":
+        return "the eps-copy type differs from the type given by the rule (parameters that are the type of a field replaced by their eps-copy type): %s" % d[:600]
+    return None
